@@ -460,6 +460,33 @@ def run(ctx):
         size = ['small', 'medium', 'medium', 'large'][i % 4] if ctx.thorough else ['small', 'medium', 'medium'][i % 3]
         # every second schema also carries the name-resolution stress (same simple names with different layouts in ancestors and globally)
         schemas.append(G.gen_schema(random.Random(rng.getrandbits(64)), size, shadow=(i % 2 == 0)))
+    # aimed AST: deprecated struct members in first / middle / last position with every combination of differently aligned neighbours,
+    # plain and force_align, and embedded in other structs (member and fixed array) - the probe compares every offset
+    dep = G.Schema(); dfl = G.File('depstructs'); dep.files = [dfl]
+    tys = ['ubyte', 'ushort', 'ulong'] if not ctx.thorough else ['ubyte', 'ushort', 'uint', 'ulong']
+    k = 0; made = []
+    for t0 in tys:
+        for t1 in tys:
+            for t2 in tys:
+                for pos in ((0,), (1,), (2,), (0, 1), (1, 2), (0, 2)):
+                    for fa in (None, 16):
+                        if fa and (k % 3): k += 1; continue
+                        k += 1
+                        st = G.Struct('D%d' % k, ['Dep'] if k % 2 else [])
+                        st.fields = [{'name': 'm%d' % j, 'type': ('scalar', t)} for j, t in enumerate((t0, t1, t2))]
+                        for j in pos: st.fields[j]['deprecated'] = True
+                        if len(pos) == 2 and k % 4 == 0: st.fields[pos[0]]['type'] = ('array', ('scalar', st.fields[pos[0]]['type'][1]), 3)
+                        st.force_align = fa
+                        made.append(st)
+    for j, st in enumerate(made[::7]):
+        w = G.Struct('W%d' % j, []); w.fields = [{'name': 'a', 'type': ('scalar', 'ubyte'), 'deprecated': bool(j % 2)}, {'name': 'b', 'type': ('struct', st)},
+                                                  {'name': 'c', 'type': ('array', ('struct', st), 2), 'deprecated': bool(j % 3 == 0)}, {'name': 'd', 'type': ('scalar', 'ubyte')}]
+        made.append(w)
+    tb = G.Table('Tdep', []); tb.fields = [{'name': 'f%d' % j, 'type': ('struct', st), 'attrs': []} for j, st in enumerate(made[:40])] + \
+        [{'name': 'v%d' % j, 'type': ('vec', ('struct', st)), 'attrs': []} for j, st in enumerate(made[40:60])]
+    dfl.decls = made + [tb]; dfl.root_type = tb
+    for d in dfl.decls: d.file = dfl
+    schemas.append(dep); nS += 1
     # expectations from the extracted model (and the independent python computation, cross-checked)
     mlines, meta = [], []
     for s in schemas:
